@@ -4,6 +4,28 @@ import json, os, sys
 HERE = os.path.dirname(os.path.dirname(os.path.abspath(__file__)))
 
 CHECKS = {
+ "C04": dict(
+    category="model_checking",
+    text=("Container.tla states what a finished file must look like as a function of the written bytes and the "
+          "configuration (container sizes = Chop(total, C) plus the empty trailer, method and zlib level class per "
+          "level, size arithmetic, zero padding, offset chaining, payload = concatenation of the encodings). Files "
+          "written by the real File over level 0..9 x container size 1..4 MiB x restore points x sequence templates "
+          "(incl. incompressible payloads) are projected by an independent decoder (struct + zlib only) to records and "
+          "TLC validates every record against the spec (trace validation, rejected records are named)."),
+    design_ref="DESIGN.md §6 C04",
+    note=("Compression is uninterpreted (inflate must give the declared size). Trusted: python zlib/hashlib, the "
+          "decoder tools/blfparse.py. Schedule independence of the container sequence is checked by C07."),
+    technique="TLA+ format spec + TLC trace validation of independently decoded files"),
+ "C05": dict(
+    category="model_checking",
+    text=("Same records plus the reader's running counters, validated by TLC against Container.tla (StatsOK): "
+          "fileSize, uncompressedFileSize = 144 + sum(32 + usize), objectCount without restore-point objects, "
+          "restorePointsOffset, caller-supplied fields verbatim, reader counters = header values; all 170 "
+          "Vector-produced reference logs are validated with RefOK (reader counters = their own header). StatsExact is "
+          "an invariant of both session specs for all interleavings, edge-replayed on the real File."),
+    design_ref="DESIGN.md §6 C05",
+    note="32-bit caller fields are compared modulo 2^31 (TLC integers). The decoder is trusted for the header layout.",
+    technique="TLA+ format spec + TLC trace validation + session invariants with M1 edge replay"),
  "C06": dict(
     category="model_checking",
     text=("ReadSession.tla / WriteSession.tla model the three threads of a File session at the grain of the "
